@@ -352,6 +352,7 @@ pub fn one_value(t: &mut Tctx, gb: &mut GuardBuf, algos: &[CrcAlgo], shape: &Sha
 
 /// Lean interpreter workload (Miri): monitored serialisations into exact-size heap buffers only.
 fn lean(t: &mut Tctx) {
+    slice_flavor_histories(t);
     let algos = crc_algos();
     let mut n = [0u64; 4];
     let mut vals = 0u64;
@@ -427,6 +428,103 @@ fn lean(t: &mut Tctx) {
     t.st.add("slice_buffer_full", n[2]);
     t.st.add("interpreted_heapless_serialisations", n[3]);
     t.st.add("values", vals);
+}
+
+/// The slice flavour is public API (`Serializer { output }`, `serialize_with_flavor`, user stacks): operation
+/// histories on one `Slice`, including writes after a refused one.  Whatever was refused before, nothing is
+/// ever written outside the buffer and `finalize` returns exactly the accepted bytes, at the front.
+fn slice_flavor_histories(t: &mut Tctx) {
+    use postcard::ser_flavors::{Flavor, Slice};
+    let mut gb = GuardBuf::new(1);
+    let n = t.cfg.scale(12, 4000, 80_000);
+    for it in 0..n {
+        if t.cfg.expired() {
+            break;
+        }
+        let cap = t.rng.range(0, 16);
+        let steps = t.rng.range(1, 10);
+        let mut plan: Vec<Vec<u8>> = Vec::new(); // one-element = push, else extend (an empty extend is written as [])
+        let mut kinds: Vec<bool> = Vec::new();
+        for _ in 0..steps {
+            let push = t.rng.chance(1, 3);
+            let len = if push {
+                1
+            } else {
+                match t.rng.below(5) {
+                    0 => 0,
+                    1 => 1,
+                    2 | 3 => t.rng.range(0, cap + 2),
+                    _ => cap + 1 + t.rng.range(0, 40),
+                }
+            };
+            plan.push((0..len).map(|_| 1 + (t.rng.next() % 200) as u8).collect());
+            kinds.push(push);
+        }
+        let plan_text = plan.iter().zip(&kinds).map(|(b, p)| if *p { format!("push({:02x})", b[0]) } else { format!("extend({})", b.len()) }).collect::<Vec<_>>().join(" ");
+        t.st.eval();
+        t.st.nontrivial(fp_mix(fp(plan_text.as_bytes()), cap as u64));
+        t.st.count("slice_flavor_histories");
+        let rpv = || vec![kv("kind", "ser-flavor-history"), kv("capacity", cap.to_string()), kv("plan", plan_text.clone())];
+        for guarded in [true, false] {
+            t.crumb.set(&format!("kind: ser-flavor-history\ncapacity: {}\nplan: {}", cap, plan_text));
+            let mut canary = Canary::new(cap, 128, FILL);
+            let buf: &mut [u8] = if guarded {
+                let b = gb.tail(cap);
+                b.fill(FILL);
+                b
+            } else {
+                canary.window()
+            };
+            let base = buf.as_ptr() as usize;
+            let r = catch(|| -> Result<(Vec<u8>, usize, usize, u32), String> {
+                let mut fl = Slice::new(buf);
+                let mut accepted: Vec<u8> = Vec::new();
+                let mut sticky = 0u32;
+                for (k, (bytes, push)) in plan.iter().zip(&kinds).enumerate() {
+                    let fits = accepted.len() + bytes.len() <= cap;
+                    let res = if *push { fl.try_push(bytes[0]) } else { fl.try_extend(bytes) };
+                    match (res, fits) {
+                        (Ok(()), true) => accepted.extend_from_slice(bytes),
+                        (Ok(()), false) => return Err(format!("step {}: a {}-byte write was accepted with {} of {} bytes used", k, bytes.len(), accepted.len(), cap)),
+                        (Err(postcard::Error::SerializeBufferFull), false) => {}
+                        (Err(postcard::Error::SerializeBufferFull), true) => sticky += 1,
+                        (Err(e), _) => return Err(format!("step {}: unexpected error {}", k, err_label(&e))),
+                    }
+                }
+                let out = fl.finalize().map_err(|e| format!("finalize: {}", err_label(&e)))?;
+                Ok((accepted, out.as_ptr() as usize, out.len(), sticky))
+            });
+            match r {
+                Err(p) => {
+                    t.st.violation("C05:panic", format!("Slice flavour of capacity {}, plan [{}]: panicked: {}", cap, plan_text, p), rpv());
+                    break;
+                }
+                Ok(Err(m)) => {
+                    t.st.violation("C05:slice-flavour-history", format!("Slice flavour of capacity {}, plan [{}]: {}", cap, plan_text, m), rpv());
+                    break;
+                }
+                Ok(Ok((accepted, optr, olen, sticky))) => {
+                    if sticky > 0 {
+                        t.st.count("fitting_writes_refused_after_a_refusal");
+                    }
+                    let window: Vec<u8> = if guarded { gb.peek(true, cap).to_vec() } else { canary.window().to_vec() };
+                    if optr != base || olen > cap || olen != accepted.len() || window[..olen.min(cap)] != accepted[..olen.min(accepted.len())] {
+                        t.st.violation(
+                            "C05:slice-flavour-history",
+                            format!("Slice flavour of capacity {}, plan [{}]: finalize returned offset {} len {} but {} bytes were accepted ({})", cap, plan_text, optr.wrapping_sub(base) as isize, olen, accepted.len(), hexs(&accepted)),
+                            rpv(),
+                        );
+                        break;
+                    }
+                    if window[olen..].iter().any(|b| *b != FILL) || (!guarded && !canary.intact()) {
+                        t.st.violation("C05:write-outside-buffer", format!("Slice flavour of capacity {}, plan [{}]: bytes beyond the accepted output were modified", cap, plan_text), rpv());
+                        break;
+                    }
+                }
+            }
+        }
+        t.crumb.clear();
+    }
 }
 
 pub fn run(cfg: &Cfg) -> Report {
@@ -508,10 +606,18 @@ pub fn run(cfg: &Cfg) -> Report {
         }
     });
     rep.stats.merge(s);
+    let s = parallel(cfg, 2, |t| {
+        slice_flavor_histories(t);
+        impure_values_lane(t, "C05");
+    });
+    rep.stats.merge(s);
+    rep.floor("slice_flavor_histories", 100);
+    rep.floor("impure_value_cases", 20);
     rep.rule = "cases = (value, framing, storage, capacity): values crafted to every plain length 0..20 and around 32/64/128/254/508/762 plus random shape values; \
                 framing in {plain, COBS, 10 CRC algorithms over 5 widths}; slice storage at EVERY capacity 0..L+2, each placed flush against the trailing guard page, \
                 flush against the leading guard page, and inside a canary region; heapless storage at 25 const capacities; growable vector / Extend sink / size counter \
-                as unbounded references. Non-trivial = every case (each is a distinct fault position); distinct = fingerprint of (shape, value, framing, capacity, placement)."
+                as unbounded references; operation histories on one Slice flavour (pushes and block writes that fit, do not fit, and follow a refused write; guard page and canary); \
+                one-shot and self-stamping values (Serialize impls that are not idempotent) through every public entry point. Non-trivial = every case (each is a distinct fault position); distinct = fingerprint of (shape, value, framing, capacity, placement)."
         .into();
     rep.assumptions = vec![
         "L for COBS framing is the length of the reference COBS transform plus sentinel (the closed formula n+floor(n/254)+2 is exact only for zero-free messages)".into(),
